@@ -19,7 +19,7 @@ LEVEL_NOTE = ('the scalar grid arithmetic of _interp_common (range, guard, numbe
               'is evaluated on the implementation by the oracle in every run (all 4 units, snapshots). Trusted: interp1d(linear), '
               'np.linspace, np.clip.')
 TECHNIQUE = 'Lean 4 proof (unfolding + list lemmas) about a hand model + differential correspondence at ℚ'
-GEN = ['Units', 'InterpGrid']
+GEN = ['Units', 'InterpGrid', 'SpectrumOps']
 OPS = ['C13']
 RULE = ('pairs of dyadic spectra (2..8 samples each; identical / nested / overlapping / touching / disjoint ranges; uniform and '
         'non-uniform grids), operators add/subtract/multiply/divide, sampling min/left/right/float, fill 0/1.5/2, all 16 wavelength-unit '
